@@ -88,7 +88,9 @@ def run(tier, replay=None):
               "language/role/label, a configuration file with thousands of other channels) that share AdaptationSets held at that gate "
               "and released at once, some of them media-first (init segment on disk), while uploads with wrong / no credentials are "
               "repeated; (V) live: 8..12 tracks of one channel, segments of 2..4 chunks, all handlers held inside the chunk callback "
-              "and released staggered, several rounds, every upload bounded by 12 s; everything in a child built with -race; distinct = distinct schedules + distinct "
+              "and released staggered, several rounds, every upload bounded by 12 s; (R) overlap: a receiver restarted on storage that holds init_org of every track, "
+              "two media uploads of ONE track overlapping while the first loads init_org from slow storage (a named pipe delivers the bytes when the "
+              "second request has arrived), order of the two segments fixed by a gated body; everything in a child built with -race; distinct = distinct schedules + distinct "
               "concurrent configurations; every scenario has >= 2 concurrent first uploads")
     c.assumptions = ["all uploads are well-formed and correctly authenticated by construction, so any answer other than 200 is a lost upload",
                      "the sequential outcome of these uploads is order-independent modulo AdaptationSet ids/order and Representation order "
@@ -127,6 +129,12 @@ def run(tier, replay=None):
     jobs += [("ReceiverConcStart", "ReceiverConcStart_gen.cfg", dict(workers=1, coverage=False)),
              ("ReceiverConcStart", "ReceiverConcStart_cex_splitread.cfg", dict(workers=1, expect="violation",
                                                                               expect_violated=("ViewConsistent", "NoLoss"), coverage=False))]
+    # registration of a track from disk (existing channel) with several requests of ONE track in flight: the code as it is
+    # (one critical section) holds MediaOK; the variant that loads init_org outside streamsMu must give its counterexample,
+    # which the driver's overlap scenarios force on the real code
+    jobs += [("ReceiverRegImpl", "ReceiverRegImpl_atomic.cfg", dict(workers=1, required_actions=("lk", "chk", "load", "ulk", "med"))),
+             ("ReceiverRegImpl", "ReceiverRegImpl_cex.cfg", dict(workers=1, expect="violation", expect_violated=("MediaOK",), coverage=False))]
+    n_reg = len(jobs) - 2
     if not quick:
         jobs.append((IMPL, "ReceiverConcImpl_design_full.cfg", dict(workers=wk, required_actions=("add", "s3", "reg", "m3"))))
     res = c.models(jobs)
@@ -136,6 +144,10 @@ def run(tier, replay=None):
             raise MachineryError(f"explorer: the design counterexample for {name} was not found ({r.status} {r.violated})")
     c.extra["design_counterexamples"] = {"OneChannel": res[0].summary(), "Registered": res[1].summary(), "NoConflict": res[2].summary()}
     c.extra["fixed_design_model"] = res[3].summary()
+    if res[n_reg + 1].status != "invariant" or "MediaOK" not in res[n_reg + 1].violated:
+        raise MachineryError(f"explorer: the counterexample of ReceiverRegImpl (init_org loaded outside streamsMu) was not found "
+                             f"({res[n_reg + 1].status} {res[n_reg + 1].violated})")
+    c.extra["registration_from_disk_model"] = {"atomic": res[n_reg].summary(), "split_counterexample": res[n_reg + 1].summary()}
     if res[9].status != "invariant":
         raise MachineryError(f"explorer: split-read counterexample of the start transition not found ({res[9].status})")
     sgens = _dedupe(vlib.tlc_printed_json(res[8], "GENS"))
@@ -181,10 +193,11 @@ def run(tier, replay=None):
     nsets, nstartconc, nrounds, roundlen = (2, 4, 6, 14) if quick else (4, 25, 40, 24)
     nbursts, burstreps = (3, 5) if quick else (20, 10)
     nlives, livelen = (3, 4) if quick else (20, 6)
-    total = len(gens) + len(sgens) * nsets + nstartconc * nsets + shapes * reps + nrounds + nbursts * 2 * burstreps + nlives
+    noverlaps = 6 if quick else 40
+    total = len(gens) + len(sgens) * nsets + nstartconc * nsets + shapes * reps + nrounds + nbursts * 2 * burstreps + nlives + noverlaps
     max_children = 40 if quick else 400
     base = ["-gen", genf, "-sgen", sgenf, "-startsets", nsets, "-startconc", nstartconc, "-rounds", nrounds, "-roundlen", roundlen,
-            "-bursts", nbursts, "-burstreps", burstreps, "-lives", nlives, "-livelen", livelen,
+            "-bursts", nbursts, "-burstreps", burstreps, "-lives", nlives, "-livelen", livelen, "-overlaps", noverlaps,
             "-seed", c.seed, "-shapes", shapes, "-reps", reps, "-tmp", c.work]
     parts, sites, crashes, start = [], {}, [], 0
     while start < total and len(parts) < max_children:
@@ -274,7 +287,7 @@ def run(tier, replay=None):
         if not need <= seen_ev:
             raise MachineryError(f"vacuity: trace lacks events {sorted(need - seen_ev)}")
         if not crashes:
-            for kind, least in (("replay", 20), ("start", 20), ("rounds", 1), ("burst", 10), ("live", 1), ("conc", 5)):
+            for kind, least in (("replay", 20), ("start", 20), ("rounds", 1), ("burst", 10), ("live", 1), ("conc", 5), ("overlap", 2)):
                 if kinds.get(kind, 0) < least:
                     raise MachineryError(f"vacuity: only {kinds.get(kind, 0)} scenarios of kind {kind}: {kinds}")
         creds = {e.get("cred") for e in events if e["ev"] == "up"}
